@@ -12,7 +12,8 @@ ID = 'C10'
 TITLE = 'dynamic nodes run exactly once, layout-independent'
 RULE = ('config with side-effecting producers (!call:vfrec.call_i, !eval note(i)) at top level, in nested mappings and lists; consumers: several '
         '!xref to one producer (also into containers), producers used as arguments of other calls, !eval code naming top-level keys; a random '
-        'permutation of the key order of every mapping; 0-2 later stages overwriting / deleting / replacing the container of a subset; '
+        'permutation of the key order of every mapping; 0-2 later stages overwriting / deleting / replacing the container of a subset or giving a call '
+        'with a !force-pinned dynamic argument another target; optionally one EvalContext shared by all builds; '
         'non-trivial = a producer with >=2 consumers of >=2 kinds, or a consumer written before its target, or an overwritten producer; '
         'distinct = hash of the case')
 BUDGET = {'quick': (4, 500), 'thorough': (16, 8000)}
